@@ -365,14 +365,58 @@ func init() {
 				n := netOf(a, p)
 				spec := gen.SubCA(nb)
 				payload := append(append([]byte{}, n.IP...), n.Mask...)
-				spec.Exts = append(spec.Exts, gen.ExtNC(true, []*der.Node{gen.Subtree(gen.GNIP(payload))}, nil))
+				permitted := []*der.Node{gen.Subtree(gen.GNIP(payload))}
+				var excluded []*der.Node
 				want := lint.Pass
 				if netInter(n) {
 					want = lint.Error
 				}
+				shape := "one permitted subtree"
+				if rng.Intn(3) == 0 {
+					// several permitted subtrees (any one intersecting is a finding), next to excluded subtrees that do
+					// not take the permitted range away: strictly narrower sub-networks (same or other base address),
+					// disjoint networks, the other address family, DNS subtrees. A permitted range that still contains
+					// reserved addresses still intersects reserved space.
+					shape = "permitted + excluded subtrees"
+					for k := rng.Intn(3); k > 0; k-- {
+						b := c19RandAddr(rng)
+						m := netOf(b, rng.Intn(8*len(b)+1))
+						permitted = append(permitted, gen.Subtree(gen.GNIP(append(append([]byte{}, m.IP...), m.Mask...))))
+						if netInter(m) {
+							want = lint.Error
+						}
+					}
+					if rng.Intn(2) == 0 {
+						permitted = append([]*der.Node{gen.Subtree(gen.GNDNS("example.com"))}, permitted...)
+					}
+					for k := 1 + rng.Intn(3); k > 0; k-- {
+						switch rng.Intn(4) {
+						case 0, 1: // strictly narrower than the first permitted network
+							if p < 8*len(a) {
+								q := p + 1 + rng.Intn(8*len(a)-p)
+								base := n.IP
+								if rng.Intn(2) == 0 {
+									base = randIn(rng, &n)
+								}
+								x := netOf(base, q)
+								excluded = append(excluded, gen.Subtree(gen.GNIP(append(append([]byte{}, x.IP...), x.Mask...))))
+							}
+						case 2: // the other family
+							if len(a) == 4 {
+								excluded = append(excluded, gen.Subtree(gen.GNIP(make([]byte, 32))))
+							} else {
+								excluded = append(excluded, gen.Subtree(gen.GNIP(make([]byte, 8))))
+							}
+						default:
+							excluded = append(excluded, gen.Subtree(gen.GNDNS("internal.example")))
+						}
+					}
+					c.R.Count("nc_certs_with_excluded_subtrees", 1)
+				}
+				spec.Exts = append(spec.Exts, gen.ExtNC(true, permitted, excluded))
 				// and against the address test through witnesses
 				c19Relations(c, n, []net.IP{n.IP, lastAddr(&n), randIn(rng, &n), randIn(rng, &n)}, "name-constraint network")
-				c19Lint(c, g, spec.DER(), "e_ext_nc_intersects_reserved_ip", want, "permitted subtree "+n.String())
+				c19Lint(c, g, spec.DER(), "e_ext_nc_intersects_reserved_ip", want, shape+", first permitted "+n.String())
 			default: // reverse-DNS name
 				ip := c19RandAddr(rng)
 				name := arpaName(ip)
